@@ -43,6 +43,7 @@ type Servers struct {
 	log    []Call
 	jwks   map[string][]byte
 	docs   map[string][]byte
+	gate   *Gate
 }
 
 // Call is one request that reached the server.
@@ -183,6 +184,68 @@ func MaxPerCanonical(calls []Call) int {
 	return max
 }
 
+// Gate makes the remote systems slow in a controlled way: from Hold on, every request whose path starts with one of the
+// prefixes (all requests if there are none) is registered (counted, logged) and then kept inside the server until Release
+// is called. Answers stay a pure function of the request. Arrived tells the harness that a request is being held, so that
+// overlapping executions are produced by waiting for events, not by sleeping.
+type Gate struct {
+	s        *Servers
+	prefixes []string
+	arrived  chan string
+	open     chan struct{}
+	once     sync.Once
+}
+
+// maxHold bounds the time a request is kept if the gate is never released (a harness error; never part of a verdict).
+const maxHold = 20 * time.Second
+
+// Hold installs a gate (replacing a previous one, which is released).
+func (s *Servers) Hold(prefixes ...string) *Gate {
+	g := &Gate{s: s, prefixes: prefixes, arrived: make(chan string, 256), open: make(chan struct{})}
+	s.mu.Lock()
+	old := s.gate
+	s.gate = g
+	s.mu.Unlock()
+	if old != nil {
+		old.Release()
+	}
+	return g
+}
+
+// Arrived delivers the path of every request that reached the gate.
+func (g *Gate) Arrived() <-chan string { return g.arrived }
+
+// Release lets all held requests continue and removes the gate.
+func (g *Gate) Release() {
+	g.once.Do(func() {
+		g.s.mu.Lock()
+		if g.s.gate == g {
+			g.s.gate = nil
+		}
+		g.s.mu.Unlock()
+		close(g.open)
+	})
+}
+
+func (g *Gate) hold(r *http.Request) {
+	match := len(g.prefixes) == 0
+	for _, p := range g.prefixes {
+		match = match || strings.HasPrefix(r.URL.Path, p)
+	}
+	if !match {
+		return
+	}
+	select {
+	case g.arrived <- r.URL.Path:
+	default:
+	}
+	select {
+	case <-g.open:
+	case <-r.Context().Done():
+	case <-time.After(maxHold):
+	}
+}
+
 func writeJSON(w http.ResponseWriter, status int, v any) {
 	b, _ := json.Marshal(v)
 	w.Header().Set("Content-Type", "application/json")
@@ -234,7 +297,11 @@ func (s *Servers) handle(w http.ResponseWriter, r *http.Request) {
 	s.calls[canon]++
 	s.byPath[r.URL.Path]++
 	s.log = append(s.log, Call{Seq: len(s.log), Path: r.URL.Path, Canon: canon, Echo: echo})
+	g := s.gate
 	s.mu.Unlock()
+	if g != nil {
+		g.hold(r)
+	}
 
 	if q := r.URL.Query(); q.Has("cc") || q.Has("expires") || q.Has("age") || q.Has("vary") {
 		s.cacheHeaders(w, r)
